@@ -1,6 +1,7 @@
 import KV.Gen.C20
 import KV.Model.SecretConn
 import KV.Model.MConn
+import KV.Model.Transport
 /-!
 # C20 — bridge between the regenerated frame/packet constants and guards (tie T1) and the models
 `KV/Gen/C20.lean` is re-extracted from `lib/p2p/conn/secret_connection.go` and `connection.go` on
@@ -69,3 +70,31 @@ theorem gen_packetIsLast_eq (sending maxSize : Nat) :
 theorem gen_default_payload : Gen.C20.defaultMaxPacketMsgPayloadSize = 1024 := rfl
 
 end KV.SecretConn.GenBridge
+
+namespace KV.Transport.GenBridge
+open KV KV.Transport
+
+/-- `MultiplexTransport.upgrade` (`lib/p2p/transport.go`): the model applies the regenerated
+identity tests in the order of the source - dialled ID against the connection key (outbound
+only), connection key against the self-reported ID, own ID against the self-reported ID.  IDs are
+strings in Go and naturals here (trusted reading: only equality is used). -/
+theorem upgrade_eq_gen (dialed : Option Nat) (connKey claimed selfId : Nat) (ab co : Bool) :
+    upgrade dialed connKey claimed selfId ab co =
+      if (match dialed with
+          | some t => Gen.C20.upgradeDialedMismatch connKey t
+          | none => false) then .auth
+      else if ab then .auth
+      else if Gen.C20.upgradeClaimMismatch connKey claimed then .auth
+      else if Gen.C20.upgradeIsSelf selfId claimed then .self
+      else if !co then .incompat
+      else .ok claimed := by
+  unfold upgrade Gen.C20.upgradeDialedMismatch Gen.C20.upgradeClaimMismatch Gen.C20.upgradeIsSelf
+  cases dialed with
+  | none => simp
+  | some t =>
+    by_cases h : connKey = t
+    · subst h; simp
+    · have h' : t ≠ connKey := fun e => h e.symm
+      simp [h, h']
+
+end KV.Transport.GenBridge
